@@ -1,6 +1,23 @@
-"""Discharging obligations: z3 in forked workers, cvc5 CLI for z3's unknowns."""
-import multiprocessing
+"""Discharging obligations.
+
+Every solver call runs in its own forked child (one per obligation), so that
+  * a verdict does not depend on what the solver was asked before (z3's answer on quantified VCs
+    depends on its internal state: observed `unknown` in a long sequence, `unsat` when asked alone),
+  * the budget is z3's deterministic resource counter (`rlimit`), not wall-clock time: the same tree
+    gives the same verdicts whether the machine is idle or all 16 cores are busy,
+  * a solver call that ignores its limits (observed once: an in-process check that ran for an hour
+    and grew to 7 GB under load) is killed by the parent at a generous wall-clock backstop and is
+    reported as `killed` (= undecided, exit 2), never as a violation.
+
+Phase 1: z3 (python bindings) in the child, small portfolio of options, R1 resource units each.
+Phase 2: what is left goes to the z3 CLI (rlimit R2) and cvc5 (wall-clock limit: cvc5 only ever
+rescues an `unknown`, it is never needed for a refutation).
+"""
 import os
+import pickle
+import select
+import signal
+import struct
 import subprocess
 import tempfile
 import time
@@ -9,48 +26,197 @@ import z3
 
 _OBLS = []
 
+# ~4.5e6 resource units per second of z3 work on the quantified VCs generated here (measured).
+R_QUICK = 1_500_000       # path-feasibility checks during symbolic execution (~0.3 s)
+R1 = 30_000_000           # per portfolio attempt in phase 1 (~6 s of z3 work when the machine is idle)
+R2_PER_S = 5_000_000      # phase 2: timeout_s * R2_PER_S
 
-def _solve(args):
-  idx, timeout_ms, seed = args[:3]
-  single = len(args) > 3 and args[3]
+
+def jobs_default():
+  try:
+    return max(2, min(16, len(os.sched_getaffinity(0))))
+  except AttributeError:
+    return 8
+
+
+def _read_exact(fd, n):
+  buf = b''
+  while len(buf) < n:
+    chunk = os.read(fd, n - len(buf))
+    if not chunk:
+      return None
+    buf += chunk
+  return buf
+
+
+class _Worker:
+  """A forked child that evaluates work(i) for the indices it is sent, one at a time."""
+
+  def __init__(self, work):
+    cr, cw = os.pipe()
+    rr, rw = os.pipe()
+    pid = os.fork()
+    if pid == 0:
+      try:
+        os.close(cw)
+        os.close(rr)
+        signal.signal(signal.SIGINT, signal.SIG_DFL)
+        while True:
+          hdr = _read_exact(cr, 8)
+          if hdr is None:
+            break
+          i = struct.unpack('q', hdr)[0]
+          if i < 0:
+            break
+          try:
+            out = pickle.dumps(work(i))
+          except BaseException as e:  # pylint: disable=broad-except
+            out = pickle.dumps(('error', '%s: %s' % (type(e).__name__, e)))
+          os.write(rw, struct.pack('q', len(out)))
+          off = 0
+          while off < len(out):
+            off += os.write(rw, out[off:off + 65536])
+      finally:
+        os._exit(0)
+    os.close(cr)
+    os.close(rw)
+    self.pid, self.cw, self.rr = pid, cw, rr
+    self.task, self.t0 = None, 0.0
+
+  def send(self, i):
+    self.task, self.t0 = i, time.time()
+    os.write(self.cw, struct.pack('q', i))
+
+  def recv(self):
+    hdr = _read_exact(self.rr, 8)
+    if hdr is None:
+      return None
+    data = _read_exact(self.rr, struct.unpack('q', hdr)[0])
+    return None if data is None else pickle.loads(data)
+
+  def close(self, kill=False):
+    try:
+      if kill:
+        os.kill(self.pid, signal.SIGKILL)
+      else:
+        os.write(self.cw, struct.pack('q', -1))
+    except OSError:
+      pass
+    for fd in (self.cw, self.rr):
+      try:
+        os.close(fd)
+      except OSError:
+        pass
+    try:
+      os.waitpid(self.pid, 0)
+    except ChildProcessError:
+      pass
+
+
+def fork_map(n, work, jobs=None, hard_s=600):
+  """work(i) for i in range(n) in forked worker processes (at most `jobs`).
+
+  A worker that does not answer within `hard_s` seconds of wall-clock time is killed and replaced;
+  the entry of that task is ('killed', seconds) -- likewise when a worker dies without an answer.
+  """
+  jobs = min(jobs or jobs_default(), max(1, n))
+  results = [None] * n
+  workers = []
+  nxt = 0
+  done = 0
+  try:
+    while done < n:
+      idle = [w for w in workers if w.task is None]
+      while nxt < n and (idle or len(workers) < jobs):
+        w = idle.pop() if idle else _Worker(work)
+        if w not in workers:
+          workers.append(w)
+        w.send(nxt)
+        nxt += 1
+      busy = [w for w in workers if w.task is not None]
+      ready, _, _ = select.select([w.rr for w in busy], [], [], 0.25)
+      now = time.time()
+      for w in busy:
+        if w.rr in ready:
+          res = w.recv()
+          i = w.task
+          w.task = None
+          done += 1
+          if res is None:           # died without an answer
+            results[i] = ('killed', now - w.t0)
+            w.close(kill=True)
+            workers.remove(w)
+          else:
+            results[i] = res
+        elif now - w.t0 > hard_s:
+          results[w.task] = ('killed', now - w.t0)
+          done += 1
+          w.close(kill=True)
+          workers.remove(w)
+  finally:
+    for w in workers:
+      w.close(kill=w.task is not None)
+  return results
+
+
+def _rl(s):
+  try:
+    st = s.statistics()
+    for k in st.keys():
+      if k == 'rlimit count':
+        return st.get_key_value(k)
+  except Exception:  # pylint: disable=broad-except
+    pass
+  return 0
+
+
+def _solve(idx, rlimit, seed, single):
   o = _OBLS[idx]
   t0 = time.time()
   r = z3.unknown
-  # small portfolio: default (MBQI + E-matching), then E-matching only
-  # z3's verdict on quantified VCs depends on internal state (observed: `unknown` in a long
-  # sequence, `unsat` in 10 ms when the same VC is asked again), so several short attempts
-  # with different options/seeds are made; any `unsat` is a proof.
+  used = 0
+  # small portfolio: default (MBQI + E-matching), then E-matching only, then other seeds;
+  # any `unsat` is a proof; `sat` is only believed from a configuration with MBQI on.
   attempts = ({}, {'smt.mbqi': False}, {'smt.random_seed': 1 + seed}, {'smt.mbqi': False, 'smt.random_seed': 2 + seed},
               {'smt.random_seed': 3 + seed, 'smt.qi.eager_threshold': 100.0})
+  # a fresh z3 context per obligation: the verdict depends on this formula only, not on what the
+  # worker solved before (term numbering and learned state are per context)
+  ctx = z3.Context()
+  fs = [f.translate(ctx) for f in o.formula()]
+  s = z3.Solver(ctx=ctx)
+  s.check()
+  before = _rl(s)     # the counter is global to the context: measure differences
   for opts in (attempts[:1] if single else attempts):
-    s = z3.Solver()
-    s.set('timeout', timeout_ms)
+    s = z3.Solver(ctx=ctx)
+    s.set('rlimit', rlimit)
     for k, v in opts.items():
       s.set(k, v)
-    s.add(*o.formula())
+    s.add(*fs)
     try:
       r = s.check()
     except z3.Z3Exception as e:  # pylint: disable=broad-except
-      return idx, 'unknown', time.time() - t0, 'z3 exception: %s' % e, None
+      return 'unknown', time.time() - t0, 'z3 exception: %s' % e, None, used
+    after = _rl(s)
+    used, before = after - before, after    # units used by the last (= deciding) attempt
     if r == z3.unsat or (r == z3.sat and 'smt.mbqi' not in opts):
       break
     if r == z3.sat:
       r = z3.unknown   # a model found with MBQI off is not trusted
   dt = time.time() - t0
   if r == z3.unsat:
-    return idx, 'proved', dt, '', None
+    return 'proved', dt, '', None, used
   if r == z3.sat:
     try:
       m = str(s.model())
     except Exception:  # pylint: disable=broad-except
       m = '<no model>'
-    return idx, 'sat', dt, m, None
+    return 'sat', dt, m, None, used
   smt2 = None
   try:
     smt2 = s.to_smt2()
   except Exception:  # pylint: disable=broad-except
     pass
-  return idx, 'unknown', dt, s.reason_unknown(), smt2
+  return 'unknown', dt, s.reason_unknown(), smt2, used
 
 
 def _cvc5(smt2, timeout_s):
@@ -82,8 +248,9 @@ def _z3cli(smt2, timeout_s):
     f.write(smt2)
     path = f.name
   try:
-    p = subprocess.run(['z3-new', '-T:%d' % timeout_s, path],
-                       capture_output=True, text=True, timeout=timeout_s + 10)
+    # deterministic budget; the wall-clock limit is only a backstop (20x the nominal time)
+    p = subprocess.run(['z3-new', 'rlimit=%d' % (timeout_s * R2_PER_S), '-T:%d' % (timeout_s * 20), path],
+                       capture_output=True, text=True, timeout=timeout_s * 20 + 30)
     out = p.stdout.strip().splitlines()
     r = out[0] if out else ''
     if r == 'unsat':
@@ -92,7 +259,7 @@ def _z3cli(smt2, timeout_s):
       return 'sat', 'z3 cli sat'
     return 'unknown', (p.stdout + p.stderr)[:200]
   except subprocess.TimeoutExpired:
-    return 'unknown', 'z3 cli timeout'
+    return 'unknown', 'killed: z3 cli wall-clock backstop'
   finally:
     os.unlink(path)
 
@@ -115,44 +282,55 @@ def _second(args):
   return st, info, backend, time.time() - t0
 
 
-def discharge(obligations, timeout_s=60, jobs=16, seed=0, use_cvc5=True,
-              first_ms=2000, phase2=True, single=False):
-  """Sets .status/.backend/.seconds/.model on each obligation.
+def quick_sat(assumptions, extra, rlimit=R_QUICK, hard_s=60):
+  """Path-feasibility query in a forked child: z3.sat / z3.unsat / z3.unknown."""
+  def work(_):
+    s = z3.Solver()
+    s.set('rlimit', rlimit)
+    s.add(*assumptions)
+    s.add(extra)
+    return str(s.check())
+  res = fork_map(1, work, jobs=1, hard_s=hard_s)[0]
+  return {'sat': z3.sat, 'unsat': z3.unsat}.get(res, z3.unknown)
 
-  Phase 1: in-process z3, sequential, short budget (VCs normally take ms).
-  Phase 2: what is left goes to z3/cvc5 CLI processes in parallel, full budget.
-  """
+
+def discharge(obligations, timeout_s=60, jobs=None, seed=0, use_cvc5=True,
+              first_ms=None, phase2=True, single=False, rlimit=None):
+  """Sets .status/.backend/.seconds/.model/.rlimit on each obligation."""
   global _OBLS
   _OBLS = obligations
   t0 = time.time()
+  jobs = jobs or jobs_default()
+  if rlimit is None:
+    rlimit = R1 if first_ms is None else max(200_000, int(first_ms * 4500))
   pending = []
-  results = None
-  if len(obligations) >= 24 and jobs > 1 and os.environ.get('VERIF_SERIAL') != '1':
-    # phase 1 in forked workers (the obligations are inherited through fork; only strings come back)
-    try:
-      ctx = multiprocessing.get_context('fork')
-      with ctx.Pool(min(jobs, 12)) as pool:
-        results = pool.map(_solve, [(i, first_ms, seed, single) for i in range(len(obligations))], chunksize=4)
-    except Exception:  # pylint: disable=broad-except
-      results = None
-  for i in range(len(obligations)):
-    idx, status, dt, info, smt2 = results[i] if results is not None else _solve((i, first_ms, seed, single))
-    o = obligations[i]
-    o.status, o.seconds, o.backend = status, dt, 'z3-%s' % z3.get_version_string()
+  results = fork_map(len(obligations), lambda i: _solve(i, rlimit, seed, single), jobs=jobs,
+                     hard_s=max(300, 60 * (1 if single else 5)))
+  for o, res in zip(obligations, results):
+    o.backend = 'z3-%s' % z3.get_version_string()
+    o.model, o.reason, o.rlimit = None, '', 0
+    if res is None or res[0] in ('killed', 'error'):
+      o.status, o.seconds = 'unknown', (res[1] if res and res[0] == 'killed' else 0.0)
+      o.reason = 'killed: solver process hit the wall-clock backstop' if (res is None or res[0] == 'killed') else 'solver process error: %s' % res[1]
+      o.killed = True
+      continue
+    status, dt, info, smt2, used = res
+    o.status, o.seconds, o.rlimit = status, dt, used
     o.model = info if status == 'sat' else None
     o.reason = info if status == 'unknown' else ''
     if status == 'unknown':
-      pending.append((i, smt2))
+      pending.append((o, smt2))
   if pending and phase2:
     from multiprocessing.pool import ThreadPool
     with ThreadPool(min(jobs, len(pending))) as pool:
       res = pool.map(_second, [(s2, timeout_s, use_cvc5) for _, s2 in pending])
-    for (i, _), (st, info, backend, dt) in zip(pending, res):
-      o = obligations[i]
+    for (o, _), (st, info, backend, dt) in zip(pending, res):
       o.seconds += dt
       if st != 'unknown':
         o.status, o.backend = st, backend
         o.model = info if st == 'sat' else None
       else:
         o.reason = info
+        if 'killed' in info:
+          o.killed = True
   return time.time() - t0
